@@ -693,6 +693,17 @@ def fam_find(tier, rng):
         for t in txs:
             ops.append(f"find {txid(t).hex()} {hx(body)}")
         ops.append(f"find {'17' * 32} {hx(body)}")
+    # blocks whose transactions carry what the small shapes never have: several long witness elements in one witness,
+    # long scripts, many inputs — a search is only as good as the parse of everything before the target
+    big = bytes((i * 17 + 3) % 256 for i in range(300))
+    heavy = [Tx(2, [(pat.take(32), 0, b"", 0xFFFFFFFE)], [(7, b"\x51")], [[big[:253], big[:254]]], 1, True),
+             Tx(2, [(pat.take(32), 1, big[:260], 5), (pat.take(32), 2, b"", 6)], [(8, big[:255]), (9, b"")], [[big, b"\x01", big[:253]], []], 2, True),
+             Tx(1, [(pat.take(32), i, b"", i) for i in range(130)], [(1, b"\x00")], [], 3, False),
+             Tx(1, [(pat.take(32), 3, b"\x51", 0)], [(2, b"\x52")], [], 4, False)]
+    body = header(pat) + cs(len(heavy)) + b"".join(t.enc() for t in heavy)
+    for t in heavy:
+        ops.append(f"find {txid(t).hex()} {hx(body)}")
+    ops.append(f"find {'99' * 32} {hx(body)}")
     for ntx in (1, 2, 3, 5) if tier == "quick" else (1, 2, 3, 5, 9, 17):
         txs = [shapes[(ntx * 11 + i * 3) % len(shapes)] for i in range(ntx)]
         if ntx >= 3:
